@@ -522,6 +522,13 @@ func (e *env) call(x *spec.Call) sval {
 		}
 		s, p := e.tr(x.Args[0]), e.tr(x.Args[1])
 		return sval{t: fmt.Sprintf("(hasPrefix %s %s)", s.t, p.t), sort: "Bool", gt: types.Typ[types.Bool]}
+	case "after":
+		// after(s, p): what follows the prefix p in s
+		if !argOK(2) {
+			return sval{t: "emptyStr", sort: "Str"}
+		}
+		s, p := e.tr(x.Args[0]), e.tr(x.Args[1])
+		return sval{t: fmt.Sprintf("(strafter %s %s)", s.t, p.t), sort: "Str", gt: types.Typ[types.String]}
 	case "fnres0", "fnres1", "fnres2":
 		// fnresN(f, args...): the N-th result of calling the function value f (calls through unknown
 		// function values are modelled as deterministic, effect-free applications)
